@@ -276,6 +276,9 @@ func (w *World) CheckOutcome() {
 				for k, val := range v.spec.Creds {
 					want.Append(k, val)
 				}
+				for k, val := range v.spec.Creds2 {
+					want.Append(k, val)
+				}
 				w.Stat("request_md_checked", 1)
 				if d := mdDiff(want, r.MD); d != "" {
 					w.Violate("C02", "wrong-request-metadata", "rpc %s: handler saw request metadata %s, caller attached %s (%s)", v.id, mdString(r.MD), mdString(want), d)
